@@ -156,6 +156,12 @@ def run_case(case):
     _extra_dirs(_W["dst"], case.get("dst_dirs", []))
     if case.get("dst_missing"):
         shutil.rmtree(_W["dst"])            # the destination root does not exist yet
+    for i in case.get("leftover", []):
+        # a staging file an interrupted earlier run left next to a file that is planned again: longer than the source now is
+        p = os.path.join(_W["dst"], names[i] + STG)
+        os.makedirs(os.path.dirname(p), exist_ok=True)
+        with open(p, "wb") as f:
+            f.write(content_bytes(3) * 3 + b"stale tail of an interrupted transfer\n")
     env = _env(case.get("env"))
     dry = case["dry"]
     before = _snapshot([_W["src"], _W["dst"]]) if dry else None
@@ -311,6 +317,12 @@ def random_cases(n, seed, dirs=("local", "push", "pull")):
         if rng.random() < 0.08:
             case["dst"] = [[] for _ in names]
             case["dst_missing"] = True
+        elif not case["pats"] and not clash and not case["del"] and not case["dry"] and rng.random() < 0.3:
+            # (with --delete the leftover is itself a destination file the source lacks, and is planned for removal)
+            planned = [i for i, (m, t) in enumerate(zip(src, case["dst"])) if m and m[0] in (1, 2, 4) and (not t or len(content_bytes(t[0])) != len(content_bytes(m[0])) or t[1] != m[1])
+                       and "\udcff" not in names[i]]
+            if planned:
+                case["leftover"] = [rng.choice(planned)]
         if case["dir"] != "local" and any("\udcff" in n and m for n, m in zip(names, src)):
             # a remote command cannot name it: the run has to report that file as failed (and deliver nothing under another name)
             case["induced"] = "unsendable"
